@@ -308,6 +308,28 @@ var Ext = omniparser.Extension{
 	CustomFuncs:         customfuncs.Merge(customfuncs.CommonCustomFuncs, v21cf.OmniV21CustomFuncs, HarnessFuncs),
 }
 
+// ExtAlt binds some of the harness function names to OTHER functions (the rendering carries an ALT_ prefix): custom function tables
+// belong to an Extension, so a schema created with this one must get these, whatever other schemas in the process are bound to.
+var ExtAlt = omniparser.Extension{
+	CreateSchemaHandler: v21.CreateSchemaHandler,
+	CustomFuncs: customfuncs.Merge(customfuncs.CommonCustomFuncs, v21cf.OmniV21CustomFuncs, HarnessFuncs, customfuncs.CustomFuncs{
+		"vf_s": func(_ *transformctx.Ctx, ss ...string) (string, error) {
+			return "ALT_S(" + strings.Join(quoteAll(ss), ",") + ")", nil
+		},
+		"vf_2": func(_ *transformctx.Ctx, a, b string) (string, error) {
+			return "ALT_2(" + strconv.Quote(a) + "," + strconv.Quote(b) + ")", nil
+		},
+		"vf_i": func(_ *transformctx.Ctx, n int64, s string) (string, error) {
+			return "ALT_I(" + strconv.FormatInt(n, 10) + "," + strconv.Quote(s) + ")", nil
+		},
+	}),
+}
+
+// NewSchemaAlt parses a schema with ExtAlt.
+func NewSchemaAlt(content []byte) (omniparser.Schema, error) {
+	return omniparser.NewSchema("schema", strings.NewReader(string(content)), ExtAlt)
+}
+
 // NewSchema parses a schema with the harness extension.
 func NewSchema(content []byte) (omniparser.Schema, error) {
 	return omniparser.NewSchema("schema", strings.NewReader(string(content)), Ext)
